@@ -133,6 +133,7 @@ func runC03Case(c *fw.Ctx, id string, cs c03Case) {
 	defer cl.Close()
 	regs := cl.CreateTable("t", [][]byte{[]byte("m")}, nil)
 	cl.EchoResults = true
+	infos := []hrpc.RegionInfo{mkInfoNamed(regs[0]), mkInfoNamed(regs[1])} // shared by the calls, as the client's cache does
 	var reqN int32
 	var fatalConn int64
 	var fatalCall uint32
@@ -149,6 +150,16 @@ func runC03Case(c *fw.Ctx, id string, cs c03Case) {
 			if (cs.Seed%2 == 0 || a == last) && atomic.CompareAndSwapInt32(&fatalDone, 0, 1) {
 				return &sim.Exc{Class: sim.ExcStopped}
 			}
+		}
+		return nil
+	}
+	cl.OnRegionAction = func(req *sim.Request, region []byte) *sim.Exc {
+		// every other "last action" case: the request's first region is answered
+		// with a region-level "not serving" ahead of the fatal action in a later one
+		if cs.Seed%4 == 3 && len(req.Multi) > 1 && string(req.Multi[0].Region) == string(region) &&
+			len(req.Multi[len(req.Multi)-1].Actions) > 0 && string(req.Multi[len(req.Multi)-1].Region) != string(region) && atomic.LoadInt64(&fatalConn) == req.Conn.ID && atomic.LoadUint32(&fatalCall) == req.CallID && atomic.LoadInt32(&fatalDone) == 0 {
+			c.Count("fatal_action_after_region_level_exception", 1)
+			return &sim.Exc{Class: sim.ExcNSRE}
 		}
 		return nil
 	}
@@ -290,7 +301,7 @@ func runC03Case(c *fw.Ctx, id string, cs c03Case) {
 	track := func(ctx context.Context, skip bool, cancelled, post bool) *c03Tracked {
 		opn++
 		opid := fmt.Sprintf("%s%s-%d", sim.OpIDPrefix, id, opn)
-		row := []byte{byte('a' + opn%26), byte('0' + opn%10)}
+		row := []byte{byte('a' + (opn*7)%26), byte('0' + opn%10)} // consecutive calls alternate between the two regions
 		var call hrpc.Call
 		opts := []func(hrpc.Call) error{}
 		if skip {
@@ -301,11 +312,11 @@ func runC03Case(c *fw.Ctx, id string, cs c03Case) {
 		} else {
 			call, _ = hrpc.NewPut(ctx, []byte("t"), row, map[string]map[string][]byte{"f": {opid: []byte("v")}}, opts...)
 		}
-		reg := regs[0]
-		if !reg.Contains(row) {
-			reg = regs[1]
+		if regs[0].Contains(row) {
+			call.SetRegion(infos[0])
+		} else {
+			call.SetRegion(infos[1])
 		}
-		call.SetRegion(mkInfoNamed(reg))
 		t := &c03Tracked{call: call, opid: opid, cancelled: cancelled, post: post, submitted: time.Now()}
 		tracked = append(tracked, t)
 		drains.Add(1)
